@@ -19,9 +19,9 @@ PROPS = {
                 nontrivial=lambda l: ' -' in l or _limits(l) or l.startswith('year_kind')),
     'C03': dict(streams=['C03'], sweeps=[], rule='reforming calendar case (day near the reformation) or boundary accessor',
                 nontrivial=lambda l: _window(l)),
-    'C04': dict(streams=['C04'], sweeps=[], rule='date in a reforming calendar (years/months containing the reformation are favoured by the generator)',
+    'C04': dict(streams=['C04'], search_streams=['C03', 'C06'], relevant=lambda l: bool(re.match(r'^(boundary|at_jdn|history) ', l)), sweeps=[], rule='date in a reforming calendar (years/months containing the reformation are favoured by the generator)',
                 nontrivial=lambda l: _window(l)),
-    'C05': dict(streams=['C05', 'C09', 'C17'], sweeps=[], rule='argument at a type limit or range end, or an iterator/shape query', nontrivial=lambda l: _limits(l) or ' 0' in l),
+    'C05': dict(streams=['C05', 'C09', 'C17', 'C16'], sweeps=[], rule='argument at a type limit or range end, or an iterator/shape query', nontrivial=lambda l: _limits(l) or ' 0' in l),
     'C06': dict(streams=['C06', 'C16'], sweeps=[], rule='history of >= 2 steps in a reforming calendar or near a limit', nontrivial=lambda l: l.count(' ') >= 4 and (_window(l) or _limits(l))),
     'C07': dict(streams=['C07'], sweeps=[], rule='request in a reforming calendar or with an out-of-range / extreme argument', nontrivial=lambda l: _window(l) or _limits(l) or ' 0' in l),
     'C08': dict(streams=['C08'], sweeps=[], rule='year of a reforming calendar', nontrivial=lambda l: _window(l)),
@@ -54,7 +54,7 @@ ORACLE_KINDS = {
     'C01': ['at_jdn', 'at_ymd_wrong', 'at_ymd_err', 'at_ordinal_date_wrong', 'at_ordinal_date_err', 'label_not_monotone'],
     'C02': ['at_jdn', 'at_ymd', 'at_ordinal_date', 'year_kind', 'year_length'],
     'C03': ['at_jdn_label', 'at_jdn_panic', 'style', 'last_julian_date', 'first_gregorian_date'],
-    'C04': ['at_jdn_ordinal', 'at_jdn_day_ordinal', 'at_jdn_panic', 'year_length'],
+    'C04': ['at_jdn_ordinal', 'at_jdn_day_ordinal', 'at_jdn_panic', 'year_length', 'last_julian_date', 'first_gregorian_date'],
     'C05': ['_panic'],
     'C06': ['succ', 'pred', 'at_ymd_wrong', 'at_ordinal_date_wrong', 'last_julian_date', 'first_gregorian_date'],
     'C07': ['at_ymd', 'at_ordinal_date'],
